@@ -146,7 +146,7 @@ def run(tier, seed):
     chainview.cross_check(chk, B.R, B.O.chain_log)
     B.close()
     chk.notes.append({"oracle_queries": B.O.counts})
-    fw.env_invariance(chk, "reg")          # the same seeded cases under -O / -OO, warnings-as-errors, other TZ / locale, a private CA bundle
+    fw.env_invariance(chk, "auth", "reg")          # the same seeded cases under -O / -OO, warnings-as-errors, other TZ / locale, a private CA bundle
     return fw.finish(chk, ob, br, TRUSTED,
                      ["documented behaviour: with no anchors in force for packed / fido-u2f / tpm the chain is not checked",
                       "OpenSSL (via pyOpenSSL X509Store.set_time) judges validity as notBefore <= now < notAfter in whole seconds and checks the root's own window"],
